@@ -491,6 +491,33 @@ func runC13Mag(c C13MagCase) string {
 			}
 		}
 		return ""
+	case "dectext":
+		// text decimals whose digits after the point push the exponent to (and
+		// beyond) the lower end of the int32 range: exact, or refused
+		st.Eval(true, model.DigestBytes("dectext", []byte(fmt.Sprint(c.Bits, c.Neg))), "dectext")
+		frac := strings.Repeat("5", int(c.Bits%7)+1)
+		for _, e := range []int64{math.MinInt32, math.MinInt32 + 1, math.MinInt32 + 2, math.MinInt32 + 5, math.MinInt32 + 8, -2147483600} {
+			lit := fmt.Sprintf("1.%sd%d", frac, e)
+			if c.Neg {
+				lit = "-" + lit
+			}
+			res, perr := reftext.Parse([]byte(lit), reftext.Options{})
+			if perr != nil || len(res.Values) != 1 {
+				harnessBug("C13: reference parser on %q: %v", lit, perr)
+			}
+			got, rerr := drive.Observe(ion.NewReaderString(lit))
+			if rerr == nil {
+				if d := model.DiffSeq(res.Values, got); d != "" {
+					return fmt.Sprintf("text decimal %s read without error as %s: %s", lit, model.SeqString(got), d)
+				}
+			}
+			if pd, err := ion.ParseDecimal(lit); err == nil {
+				if d := model.Diff(res.Values[0], model.Value{Kind: model.Decimal, Dec: drive.DecOf(pd)}); d != "" {
+					return fmt.Sprintf("ParseDecimal(%q) = %s without error: %s", lit, pd.String(), d)
+				}
+			}
+		}
+		return ""
 	case "sid":
 		// a symbol whose ID is 9 + maxID + 1 through a fixed table with an
 		// Adjust-ed import
@@ -678,6 +705,13 @@ func TestC13(t *testing.T) {
 		for _, e := range []uint64{0, 1, 62, 63, 64, 65, 8190, 8191, 8192, 8193, 1<<20 - 1, 1 << 20, 1<<20 + 1, 1<<27 - 1, 1 << 27, math.MaxInt32 - 1, math.MaxInt32} {
 			for _, neg := range []bool{false, true} {
 				if !yield(C13MagCase{What: "decexp", Bits: e, Neg: neg}) {
+					return
+				}
+			}
+		}
+		for n := uint64(0); n < 7; n++ {
+			for _, neg := range []bool{false, true} {
+				if !yield(C13MagCase{What: "dectext", Bits: n, Neg: neg}) {
 					return
 				}
 			}
